@@ -289,6 +289,21 @@ def many_hosts_sd(rng):
     return sd
 
 
+def mixed_magnitudes(rng, sd):
+    """one host worth 2^18, others worth 1/64 or 1/2, every cost a whole number: each single reward (value - cost)
+    is exact in single precision, a running TOTAL of what was collected is not"""
+    import math
+    hosts = [(a, dict(c, val=rng.choice([0.015625, 0.5, 0, 3]))) for a, c in sd["hosts"]]
+    hm = dict(hosts)
+    big = rng.choice([a for a, _ in sd["sens"]] or [hosts[0][0]])
+    hm[big]["val"] = 262144
+    out = dict(sd, hosts=hosts, sens=[(a, hm[a]["val"]) for a, _ in sd["sens"]],
+               exploits=[dict(e, cost=max(1, math.ceil(e["cost"]))) for e in sd["exploits"]],
+               privescs=[dict(q, cost=max(1, math.ceil(q["cost"]))) for q in sd["privescs"]],
+               costs=tuple(math.ceil(c) for c in sd["costs"]))
+    return out
+
+
 def small_values(rng, sd):
     """every value and discovery value below 2, exploits grant USER only, root comes from an escalation: the access
     level is then the largest number an observation can hold"""
